@@ -49,6 +49,8 @@ class Ctx:
             return r.choice(self.texts)
         blk = blocks and r.random() < 0.5
         name = r.choice(names or (BLOCK if blk else INL))
+        if names is None and r.random() < 0.15:
+            name = r.choice(BLOCK + INL)          # any name with any whitespace flag (inline <script>, block <span>, ...)
         n = r.choice([0, 0, 1, 1, 2, 3, 4])
         kids = [self.rtree(d - 1, meta, objs, blocks, names) for _ in range(n)]
         at = {}
